@@ -36,7 +36,7 @@ CHECK = {
             "(small key pool to force duplicate keys).  (target, epsilon) are either dyadic (a*2^-k, b*2^-k, |a|,b <= 2^20, k "
             "from moderate, subnormal and huge ranges, epsilon 0 in 20%) so that the thresholds are exactly representable, or "
             "generic (log-uniform magnitudes 1e-6..1e6, subnormal, near the type's maximum); values are the threshold itself, "
-            "nextafter on either side, 2..4 ulps off, grid neighbours, (generic regime) 4.5..1e4 eps*max(|t|,|e|) off i.e. just outside "
+            "nextafter on either side, 2..4 ulps off, grid neighbours, (generic regime) 8.5..1e4 eps*max(|t|,|e|) off i.e. just outside "
             "the ambiguity band, the target, far values, 0 and +-max; int operands keep "
             "|target| <= 2^30, epsilon < 2^30; non-trivial = a threshold sequence with at least one value on / within 4 ulps "
             "/ within 1e4 eps*max of a threshold or an evaluation after a timeout, a status list longer than 4 with >= 2 distinct statuses, an "
@@ -56,11 +56,11 @@ CHECK = {
     "assumptions": [
         "exact regime: target and epsilon are multiples of one power of two with |a|+b < 2^21, so target-epsilon and "
         "target+epsilon are exactly representable in float and double and the floating verdict must equal the real one",
-        "generic regime: the verdict is required only when the value is further than 4 eps(T) max(|target|,|epsilon|) from a "
+        "generic regime: the verdict is required only when the value is further than 8 eps(T) max(|target|,|epsilon|) from a "
         "threshold; inside that band either neighbouring verdict is accepted (counted under skipped_as_ambiguous); a correctly "
         "rounded threshold is within eps/2*|t+-e| <= eps*max of the real one, so the reported ratio "
         "band.disagreement_distance_over_band (largest distance at which the library and the real verdict differ, over the "
-        "band) is bounded by 0.25 and approaches it",
+        "band) is bounded by 0.125 and approaches it",
         "int check-ups: |target| <= 2^30 and epsilon < 2^30 so that target+-epsilon does not overflow int (signed overflow "
         "of the threshold expression itself is outside the domain exercised)",
         "low <= high for the reliability check-up; worseStatus/allOK are called on non-empty lists only (the library asserts "
